@@ -150,6 +150,10 @@ fn run_execution_here(scenario: &str, sched: &str, exec_seed: u64, worker: usize
     let name = scenario.to_string();
     let body = move || dispatch(&name, exec_seed, worker, &slot2);
     LAST_PANIC.with(|p| *p.borrow_mut() = None);
+    // A failed execution leaks its tasks, and with them every file they hold open; at thorough
+    // scale the leaked descriptors of the (known) deadlocking executions reached the process
+    // limit.  Everything this thread opened and did not close is closed when the execution ends.
+    fsx::leak_guard_begin();
     let r = catch_unwind(AssertUnwindSafe(|| {
         if let Some(depth) = sched.strip_prefix("pct") {
             let depth: usize = depth.parse().unwrap_or(3);
@@ -158,6 +162,7 @@ fn run_execution_here(scenario: &str, sched: &str, exec_seed: u64, worker: usize
             Runner::new(RandomScheduler::new_from_seed(exec_seed, 1), config).run(body);
         }
     }));
+    let _closed_for_leaked_tasks = fsx::leak_guard_end();
     let report = slot.lock().map(|r| r.clone()).unwrap_or_else(|e| e.into_inner().clone());
     let failure = match r {
         Ok(()) => None,
